@@ -35,30 +35,50 @@ func findRangeLoops(fn *ssa.Function) []*rangeLoop {
 		if !ok || bo.Op != token.LSS {
 			continue
 		}
-		inc, ok := bo.X.(*ssa.BinOp)
-		if !ok || inc.Op != token.ADD || !isConstInt(inc.Y, 1) {
-			continue
-		}
-		phi, ok := inc.X.(*ssa.Phi)
-		if !ok || phi.Block() != h || len(phi.Edges) < 2 {
-			continue
-		}
-		nInit, okPhi := 0, true
-		for _, e := range phi.Edges {
-			if isConstInt(e, -1) {
-				nInit++
-			} else if e != ssa.Value(inc) {
-				okPhi = false
+		var index ssa.Value
+		if inc, ok := bo.X.(*ssa.BinOp); ok && inc.Op == token.ADD && isConstInt(inc.Y, 1) {
+			// `for i, e := range s`: φ starts at -1, the index is φ+1
+			phi, ok := inc.X.(*ssa.Phi)
+			if !ok || phi.Block() != h || len(phi.Edges) < 2 {
+				continue
 			}
-		}
-		if !okPhi || nInit != 1 {
+			nInit, okPhi := 0, true
+			for _, e := range phi.Edges {
+				if isConstInt(e, -1) {
+					nInit++
+				} else if e != ssa.Value(inc) {
+					okPhi = false
+				}
+			}
+			if !okPhi || nInit != 1 {
+				continue
+			}
+			index = inc
+		} else if phi, ok := bo.X.(*ssa.Phi); ok && phi.Block() == h && len(phi.Edges) >= 2 {
+			// `for i := 0; i < len(s); i++`: φ starts at 0, every other edge is φ+1
+			nInit, okPhi := 0, true
+			for _, e := range phi.Edges {
+				if isConstInt(e, 0) {
+					nInit++
+					continue
+				}
+				inc, ok := e.(*ssa.BinOp)
+				if !ok || inc.Op != token.ADD || inc.X != ssa.Value(phi) || !isConstInt(inc.Y, 1) {
+					okPhi = false
+				}
+			}
+			if !okPhi || nInit != 1 {
+				continue
+			}
+			index = phi
+		} else {
 			continue
 		}
 		lc, ok := bo.Y.(*ssa.Call)
 		if !ok || builtinName(&lc.Call) != "len" {
 			continue
 		}
-		l := &rangeLoop{Header: h, Slice: lc.Call.Args[0], Index: inc, Blocks: map[*ssa.BasicBlock]bool{h: true}}
+		l := &rangeLoop{Header: h, Slice: lc.Call.Args[0], Index: index, Blocks: map[*ssa.BasicBlock]bool{h: true}}
 		// body = blocks reachable from the true successor without passing the header
 		var stack []*ssa.BasicBlock
 		stack = append(stack, h.Succs[0])
@@ -94,7 +114,10 @@ func (l *rangeLoop) isElem(p *Prog, v ssa.Value) bool {
 		return false
 	}
 	ia, ok := u.X.(*ssa.IndexAddr)
-	return ok && ia.X == l.Slice && ia.Index == l.Index
+	if !ok || ia.Index != l.Index {
+		return false
+	}
+	return ia.X == l.Slice || p.pureKey(ia.X) == p.pureKey(l.Slice)
 }
 
 func isFieldLoad(v ssa.Value, typeKeyWant, field string) bool {
@@ -348,10 +371,14 @@ func k2Flatten(p *Prog, fn *ssa.Function) string {
 		}
 		if c := ifCond(b); c != nil {
 			bo, ok := c.(*ssa.BinOp)
-			if !ok || bo.Op != token.NEQ || !isNilConst(bo.Y) || !l.isElem(p, bo.X) {
+			if !ok || (bo.Op != token.NEQ && bo.Op != token.EQL) || !isNilConst(bo.Y) || !l.isElem(p, bo.X) {
 				return "an element is skipped by a test other than e != nil"
 			}
-			for _, in := range b.Succs[0].Instrs {
+			nonNilSucc := b.Succs[0]
+			if bo.Op == token.EQL {
+				nonNilSucc = b.Succs[1]
+			}
+			for _, in := range nonNilSucc.Instrs {
 				if call, ok := in.(*ssa.Call); ok && builtinName(&call.Call) == "append" {
 					if p.backwardReaches(call.Call.Args[1], func(v ssa.Value) bool { return l.isElem(p, v) }) {
 						appendOK = true
